@@ -282,6 +282,7 @@ pub fn c09(ctx: &mut Ctx) {
                 return;
             }
             let img = wire::encode(&p);
+            crate::placed!(l, img);
             l.evals += 1;
             l.states += 1;
             l.sample(|| hex_short(&img));
@@ -307,6 +308,7 @@ pub fn c09(ctx: &mut Ctx) {
             if let Pkt::Sr { blocks, .. } | Pkt::Rr { blocks, .. } = get(idx) {
                 let mut img = Vec::new();
                 wire::encode_rb(&mut img, &blocks[1]);
+                crate::placed!(l, img);
                 l.evals += 1;
                 l.states += 1;
                 l.sample(|| hex_short(&img));
@@ -343,6 +345,7 @@ pub fn c09(ctx: &mut Ctx) {
             img[2] = (words >> 8) as u8;
             img[3] = words as u8;
             let img = if pad > 0 { wire::pad_packet(&img, pad) } else { img };
+            crate::placed!(l, img);
             l.evals += 1;
             l.states += 1;
             l.sample(|| hex_short(&img));
@@ -381,6 +384,7 @@ pub fn c09(ctx: &mut Ctx) {
                 _ => Pkt::Bye { ssrcs: (0..n as u32).map(|i| 0x0100_0000 * (i + 1) + i).collect(), reason: "bye".into(), pad },
             };
             let img = wire::encode(&p);
+            crate::placed!(l, img);
             l.evals += 1;
             l.sample(|| format!("iterator histories on {}", hex_short(&img)));
             l.nontrivial(fp_bytes(&img));
@@ -423,10 +427,9 @@ pub fn c09(ctx: &mut Ctx) {
         ctx.require_hit("iterator history agrees with repeated next()");
     }
     for sp in framing_spaces(ctx.tier) {
-        let get = &sp.get;
-        ctx.run_space(&format!("arbitrary:{}", sp.name), sp.len, |idx, l| {
-            let mut buf = Vec::with_capacity(64);
-            get(idx, &mut buf);
+        let lim = if sp.name.contains("giant") { 0 } else { bytes::cross_limit(ctx) };
+        let name = format!("arbitrary:{}", sp.name);
+        sp.run(ctx, &name, lim, |buf, l| {
             l.evals += 1;
             l.states += 1;
             l.sample(|| hex_short(&buf));
@@ -485,11 +488,15 @@ fn extra_observation(bytes: &[u8]) -> String {
 
 fn transparency_case(l: &mut Local, img: &[u8], n: u8, name: &str, type_name: &str, prefix: &str) {
     let padded = wire::pad_packet(img, n);
+    // the two strings are handed over at different address residues (engine::place)
+    let img = img.to_vec();
+    crate::placed!(l, img);
+    crate::placed!(l, padded, 3);
     l.evals += 1;
     l.states += 1;
     l.sample(|| format!("{} + padding {}", hex_short(img), n));
     l.transitions += 2;
-    let r = guard::catch(|| (observe::parse_and_observe(img), observe::parse_and_observe(&padded)));
+    let r = guard::catch(|| (observe::parse_and_observe(img), observe::parse_and_observe(padded)));
     match r {
         Err(pi) => l.subject_panic(&format!("{}parse-padded:{}", prefix, name), &pi, || format!("{} + padding {}", hex_short(img), n)),
         Ok((Err(e), _)) => {
@@ -536,9 +543,10 @@ fn transparency_case(l: &mut Local, img: &[u8], n: u8, name: &str, type_name: &s
                         // ... and a padded packet followed by another packet (legal on the wire): both come out
                         l.transitions += 1;
                         let follow = guard::catch(|| -> Result<(), String> {
-                            let mut two = padded.clone();
+                            let mut two = padded.to_vec();
                             two.extend_from_slice(&[0x81, 203, 0, 1, 0xAB, 0xCD, 0xEF, 0x01]);
-                            let c = Compound::parse(&two).map_err(|e| format!("Compound::parse = {:?}", e))?;
+                            let two = crate::engine::place::place(&mut two, (n as usize / 4 + padded.len()) % 8);
+                            let c = Compound::parse(two).map_err(|e| format!("Compound::parse = {:?}", e))?;
                             let items: Vec<_> = c.take(4).collect();
                             if items.len() != 2 || items.iter().any(|r| r.is_err()) {
                                 return Err(format!("padded packet + BYE iterates as {:?}", items.iter().map(|r| r.as_ref().map(|_| "packet").map_err(|e| format!("{:?}", e))).collect::<Vec<_>>()));
@@ -652,7 +660,8 @@ pub fn c13(ctx: &mut Ctx) {
                 }
             };
             l.transitions += 2;
-            let r = guard::catch(|| (observe::parse_and_observe(&images[b]), observe::parse_and_observe(&built)));
+            crate::placed!(l, built);
+            let r = guard::catch(|| (observe::parse_and_observe(&images[b]), observe::parse_and_observe(built)));
             let name = bases[b].builder_name();
             let show = || format!("{} built with padding {} ({}): {}", cfg.short(), n, if owned { "owned" } else { "borrowed" }, hex_short(&built));
             match r {
